@@ -53,6 +53,10 @@ def specOk (p : Parsed) (when : Int) : Bool :=
     !(m.crl.revoked.contains m.ee.serial)
 
 def handle (toks : List String) (impl : String) : Verdict :=
+  -- a verdict followed by ` ALT=<wrapper>`: the protocol wrapper and SignedMessage disagree on the same octets
+  if (impl.splitOn " ALT=").length > 1 then
+    { oracle := some s!"ProvisioningCms / PublicationCms and SignedMessage give different verdicts for the same message: {impl}" }
+  else
   match toks with
   | "msg" :: when :: facts :: _ =>
     match Driver.C01.parseInt when with
